@@ -5,7 +5,6 @@ Go side   : harness/cmd/runeigh drives the real network.Neighborhood of vlib.REP
 See ENGINE_CONTRACT.md.  The engine never prints VIOLATION and never writes evidence.
 """
 import json
-import os
 from concurrent.futures import ThreadPoolExecutor
 
 import vlib
@@ -16,13 +15,9 @@ NS = "Neigh."
 # every theorem that must be present in the audit output with allowed axioms only
 THEOREMS = {
     "C17": [NS + t for t in (
-        "C17_bounded",
-        "C17_distinct_values", "C17_distinct_partial", "C17_distinct_counterexample",
-        "C17_not_self_value", "C17_not_self_partial", "C17_not_self_counterexample",
-        "C17_known_only", "C17_reachable_only", "C17_best",
-        "C17_fanout_exact", "C17_fanout_partial", "C17_fanout_counterexample",
-        "C17_retained", "C17_incentive", "C17_retained_inv_partial", "C17_retained_inv_counterexample",
-        "C17_networkId", "C17_rounds", "C17_rounds_invariant", "C17_negative_max_panics",
+        "C17_bounded", "C17_distinct", "C17_not_self", "C17_known_only", "C17_reachable_only", "C17_best",
+        "C17_fanout", "C17_retained", "C17_incentive", "C17_retained_inv", "C17_init", "C17_networkId",
+        "C17_rounds", "C17_rounds_invariant", "C17_negative_max_panics",
     )],
 }
 
@@ -32,17 +27,22 @@ WORKERS = 16
 
 ASSUMPTIONS = [
     "crypto: n/a for C17",
-    "net.SplitHostPort (via NewTargetFromValue) and the sender's Target() (net.JoinHostPort of the looked-up ip) are "
-    "PARAMETERS of the model (Env.parse, Env.senderTarget); the theorems hold for every such function, the "
-    "correspondence feeds the answers of the real functions",
+    "the model mirrors neighborhood.go/target.go AFTER the repairs seeded/_fixes/c17-normalise-target.diff and "
+    "c17-incentive-validates.diff; against an unrepaired tree the regression witnesses reproduce (C17/strong/*)",
+    "net.SplitHostPort / net.JoinHostPort are PARAMETERS of the model (Env.parse, Env.join) with the hypothesis "
+    "Env.RoundTrip: parse v = some (ip, port) -> parse (join ip port) = some (ip, port); checked by runeigh on every "
+    "generated target against the real functions (param_hypothesis_checks)",
+    "Sender.Target() is a parameter (Env.senderTarget) with the hypothesis Env.TargetIsJoin: senderTarget ip port = "
+    "join ip port (used by C17_fanout, via RoundOK).  True of p2p.NewNeighbor(ip, port); the production factory first "
+    "replaces ip by LookupIP(ip), so for host NAMES (not numeric addresses) a peer may still be sent its own target "
+    "under its DNS name, and one peer may be known under a name and an address: out of scope of C17's repair",
     "CreateSender reachability is a parameter of every round (any predicate on (ip, port))",
-    "Go map iteration order and rand.Shuffle enter as arbitrary rearrangements (∀ order, ∀ shuffle with Perm hypotheses); "
-    "the implementation's result is compared as a member of the model's allowed set",
+    "Go map iteration order and rand.Shuffle enter as arbitrary rearrangements (forall order, forall shuffle with Perm "
+    "hypotheses); the implementation's result is compared as a member of the model's allowed set",
     "target strings are valid UTF-8 in the model (Go: byte strings); scores are unbounded Int in the model (Go int: "
     "no overflow below 2^63 incentives of one target per round)",
-    "the property is read with peer = announced target string (what the code compares); the stronger endpoint "
-    "reading is refuted by C17_distinct/not_self/fanout_counterexample and, for the Incentive path, by "
-    "C17_retained_inv_counterexample; their witnesses are replayed on the real code on every run (see witnesses)",
+    "peers are identified by endpoint (ip, port); seeds are operator configuration: re-keyed by canonical spelling, "
+    "not filtered by network",
     "quantifier of C17 is max >= 0; max < 0 panics (C17_negative_max_panics, reproduced) and is only checked for "
     "conformance with the model",
     "single-threaded use of Neighborhood between operations (locking discipline is C16's subject)",
@@ -52,8 +52,8 @@ TRUSTED = [
     "Lean 4 kernel; axioms propext, Classical.choice, Quot.sound only (audited per theorem on every run)",
     "hand-written model lean/neigh/Neigh/Model.lean, tied to neighborhood.go/target.go by differential testing "
     "(runeigh); its strength is bounded by generator coverage, reported in the histograms",
-    "harness/cmd/runeigh (Go): fake SenderCreator/Sender, read-only reflection on Neighborhood.scoresByTargetValue, "
-    "comparison logic",
+    "harness/cmd/runeigh (Go): fake SenderCreator/Sender, read-only reflection on Neighborhood.scoresByTargetValue and "
+    "scoresBySeedTargetValue, comparison logic",
     "lean_exe neighdriver (JSON line protocol around the model, core Lean + Lean.Data.Json)",
     "Go runtime/scheduler: SendTargets goroutines are awaited per outbound; 'no message to unselected peers' is checked "
     "after the goroutine count returned to its baseline",
@@ -71,6 +71,18 @@ def _run_harness(binary, driver, seed, rounds, extra=None, timeout=900):
     if "fatal" in summary:
         return None, "harness: " + str(summary["fatal"])
     return summary, ""
+
+
+def _witnesses(prop, binary):
+    """Regression witnesses (must NOT reproduce) + parameter table; returns (witness list, failures)."""
+    rc, out, err = vlib.run([str(binary), "--witnesses"], cwd=vlib.VERIF, timeout=120)
+    try:
+        summary = json.loads(out.strip().splitlines()[-1])
+        return summary["witnesses"], _to_failures(prop, summary)
+    except Exception:
+        why = (out + err)[-800:]
+        return ([{"name": "witness run", "reproduced": None, "expected": None, "detail": why}],
+                [vlib.failure("diff", f"{prop}/harness-crash/runeigh-witnesses", why, {"why": why}, False)])
 
 
 def _merge_hist(dst, src):
@@ -112,25 +124,14 @@ def run(ctx):
         return vlib.result(lean=lean, failures=failures, extra_obligations=extra, assumptions=ASSUMPTIONS,
                            trusted_base=TRUSTED)
 
-    # 1. witnesses of the counterexample theorems, on the real code
-    rc, out, err = vlib.run([str(binary), "--witnesses"], cwd=vlib.VERIF, timeout=120)
-    witnesses = []
-    try:
-        witnesses = json.loads(out.strip().splitlines()[-1])["witnesses"]
-    except Exception:
-        witnesses = [{"name": "witness run", "reproduced": False, "detail": (out + err)[-500:]}]
-    wit_ok = all(w.get("reproduced") for w in witnesses)
-    extra.append({"name": "counterexample witnesses of Neigh.Props reproduce on the implementation "
-                          "(a 'False' means the code no longer shows that behaviour: re-state the theorems)", "ok": wit_ok})
-    if not wit_ok:
-        for w in witnesses:
-            if not w.get("reproduced"):
-                failures.append(vlib.failure("tie", f"{prop}/witness-not-reproduced/{w['name'].split(':')[0]}",
-                                             "a Lean counterexample witness no longer reproduces on the code: "
-                                             + w["name"] + " — " + str(w.get("detail")), {"witness": w}, False))
+    # 1. regression witnesses (the inputs on which the unrepaired code violated C17) must not reproduce
+    witnesses, wfails = _witnesses(prop, binary)
+    extra.append({"name": "regression witnesses C17/strong/* do not reproduce; Neigh.Ex table matches the real functions",
+                  "ok": not wfails})
+    failures += wfails
 
     # 2. correspondence + direct property evaluation
-    strict = ["--strict"] if os.environ.get("VERIF_C17_STRICT") else []
+    strict = []
     if ctx.thorough:
         per = THOROUGH_ROUNDS // WORKERS
         seeds = [ctx.seed * 1000 + i for i in range(WORKERS)]
@@ -140,9 +141,10 @@ def run(ctx):
         results = [_run_harness(binary, driver, ctx.seed, QUICK_ROUNDS, strict, timeout=300)]
 
     corr = {"evaluations": 0, "distinct_nontrivial": 0, "rule": "", "samples": [], "rounds": 0, "scenarios": 0,
-            "traces_validated_against_impl": 0, "hist": {}, "witnesses": witnesses, "worker_seeds": []}
+            "traces_validated_against_impl": 0, "network_id_pairs": 0, "param_hypothesis_checks": 0, "hist": {}, "witnesses": witnesses,
+            "worker_seeds": []}
     corr_ok = True
-    seen = set()
+    seen = {f["signature"] for f in wfails}
     for summary, why in results:
         if summary is None:
             corr_ok = False
@@ -153,6 +155,8 @@ def run(ctx):
         corr["scenarios"] += summary["scenarios"]
         corr["distinct_nontrivial"] += summary["distinct_nontrivial"]   # per-worker distinct; seeds differ
         corr["traces_validated_against_impl"] += summary["model_answers_compared"]
+        corr["network_id_pairs"] += summary.get("network_id_pairs", 0)
+        corr["param_hypothesis_checks"] += summary.get("param_hypothesis_checks", 0)
         corr["rule"] = summary["rule"]
         corr["worker_seeds"].append(summary["seed"])
         if len(corr["samples"]) < 5:
@@ -168,7 +172,7 @@ def run(ctx):
     extra.append({"name": "correspondence runeigh (model vs implementation) + C17 clauses on the implementation", "ok": corr_ok})
     ctx.log(f"runeigh: {corr['rounds']} rounds, {corr['evaluations']} ops, {corr['distinct_nontrivial']} non-trivial, "
             f"{len(failures)} failure(s)")
-    notes = ("Strong-reading hits (not failures; see Neigh.Props *_full/_counterexample): "
+    notes = ("Endpoint-level clauses are always checked on the implementation; hits: "
              + json.dumps(corr["hist"].get("strong_reading_hits", {}), sort_keys=True))
     return vlib.result(lean=lean, corr=corr, failures=failures, extra_obligations=extra,
                        assumptions=ASSUMPTIONS, trusted_base=TRUSTED, notes=notes)
@@ -178,7 +182,7 @@ def replay(ctx, body):
     """Re-execute a replay file on the current tree; returns the failures that still occur."""
     prop = body.get("property", "C17")
     payload = body.get("replay") or {}
-    if payload.get("tool") != "runeigh" or "scenario" not in payload:
+    if payload.get("tool") != "runeigh" or not ("scenario" in payload or "ports" in payload):
         # proof-side obligation: re-run the Lean check
         lean = vlib.lean_check(PKG, THEOREMS[prop], thorough=False)
         return vlib.lean_failures(prop, lean)
@@ -189,8 +193,8 @@ def replay(ctx, body):
     if not ok:
         return [vlib.failure("diff", f"{prop}/harness-build/runeigh", blog[-800:], {}, False)]
     path = ctx.work / "scenario.json"
-    path.write_text(json.dumps({"scenario": payload["scenario"]}))
-    extra = ["--replay", str(path)] + (["--strict"] if "/strong/" in body.get("signature", "") else [])
+    path.write_text(json.dumps({"replay": {k: payload[k] for k in ("scenario", "ports") if k in payload}}))
+    extra = ["--replay", str(path)] + (["--strong-only"] if "witness" in payload else [])
     summary, why = _run_harness(binary, vlib.lean_exe(PKG, "neighdriver"), body.get("seed", 0), 0, extra, timeout=300)
     if summary is None:
         return [vlib.failure("diff", f"{prop}/harness-crash/runeigh", why, {}, False)]
